@@ -532,3 +532,33 @@ def run_main(fn, *, chooser=None, seed: int = 0, order_source=None, max_steps: i
     if main.exc is not None:
         return s, ("raised", main.exc)
     return s, ("ok", main.result)
+
+
+class ReplayChooser:
+    """Drive the runtime along a TLC behaviour.  ``script`` is a list of
+    predicates over (task, label, option), one per TLC action that corresponds
+    to a scheduling point; ``auto`` marks transitions without a counterpart in
+    the specification (taken eagerly, first come first served).  A script step
+    that is not enabled is a *divergence*: recorded, then skipped."""
+
+    def __init__(self, script, auto, after=None) -> None:
+        self.script = list(script)
+        self.auto = auto
+        self.pos = 0
+        self.divergences: list = []
+        self.after = after or (lambda en, s: 0)
+        self.guard = 0
+
+    def __call__(self, enabled, sched) -> int:
+        for i, tr in enumerate(enabled):
+            if self.auto(*tr):
+                return i
+        while self.pos < len(self.script):
+            pred, descr = self.script[self.pos]
+            for i, tr in enumerate(enabled):
+                if pred(*tr):
+                    self.pos += 1
+                    return i
+            self.divergences.append(dict(step=self.pos, action=descr, enabled=[(t, l) for t, l, _ in enabled][:8]))
+            self.pos += 1
+        return self.after(enabled, sched)
